@@ -59,7 +59,7 @@ void h_prw(void) {
     ND(size_t, n); ND(U32, d); ND(U32, iovp); ND(U32, cnt); ND(U32, rp); ND(U64, off); U32 r;
     mk_table_sym(n, n, d); LIVE_FILE(d, n); mem_init();
     ASSUME(cnt <= EV_IOV_MAX && iovp <= GMEM - 8 * EV_IOV_MAX && rp <= GMEM - 4);
-    ASSUME(off <= 0x7FFFFFFFFFFFFFFFull);             /* representable as off_t */
+    /* every 64-bit offset, also those >= 2^63 (a negative off_t: POSIX lseek/pwrite reject them with EINVAL - they are never 'the current position') */
 #ifdef OFFSET_CLASS_32BIT
     ASSUME(off <= 0xFFFFFFFFull);
 #endif
@@ -71,6 +71,7 @@ void h_prw(void) {
         if (g_ev_seq_res[0] >= 0) {
             OBL(g_ev_calls >= 2 && g_ev_seq[1] == EV_lseek && g_ev_seq_whence[1] == SEEK_SET, "pread/pwrite: then the position is set absolutely");
             OBL(g_ev_calls >= 2 && g_ev_seq_off[1] == (long long)off, "pread/pwrite: the FULL 64-bit guest offset reaches lseek");
+            if (off > 0x7FFFFFFFFFFFFFFFull) OBL(r != SW_SUCCESS && g_ev_calls == 2 && g_ev_seq_res[1] < 0, "pread/pwrite: an offset beyond 2^63-1 fails (as pwrite does), nothing is transferred");
             if (g_ev_calls >= 2 && g_ev_seq_res[1] >= 0) {
                 OBL(g_ev_calls == 4 && g_ev_seq[2] == RW_EV, "pread/pwrite: one vectored transfer at that position");
                 OBL(g_ev_calls == 4 && g_ev_seq[3] == EV_lseek && g_ev_seq_whence[3] == SEEK_SET && g_ev_seq_off[3] == g_ev_seq_res[0],
